@@ -284,6 +284,16 @@ func Coordinate(opt Options, plan *Plan, store *kf.Store) int {
 			r := int(uint64(opt.Seed) % uint64(n))
 			queue = append(queue[r:], queue[:r]...)
 		}
+		// maintenance (spot runs of a thorough tier under VF_BUDGET_S): start the queue at the job containing unit
+		// VF_UNIT_FROM, so that a short run reaches a chosen region (e.g. the seed patterns, which come after P(N))
+		if from, err := strconv.Atoi(os.Getenv("VF_UNIT_FROM")); err == nil && from > 0 {
+			for i, j := range queue {
+				if j.hi > from {
+					queue = append(queue[i:], queue[:i]...)
+					break
+				}
+			}
+		}
 		var crashed []int // units that killed a worker
 		next := func() (job, bool) {
 			mu.Lock()
